@@ -49,6 +49,7 @@ type grState struct {
 	llgrOn  bool
 	capFams []string // families the peer will list in its next GR capability
 	fuzzy   bool     // LLGR with a further loss before End-of-RIB: RFC 9494 leaves the details open; checks suspended
+	deleted bool     // the neighbour was removed by the operator (until it is added again): nothing of it may remain (C02)
 }
 
 func (w *simWorld) gr() *grState { return w.fam.(*grState) }
@@ -133,6 +134,12 @@ func genGR(seed uint64, tier, mode string) *Script {
 		add(Op{Kind: "loss", Arg: loss})
 		add(Op{Kind: "probe"})
 		if loss == "delpeer" {
+			add(Op{Kind: "addpeer"})
+		} else if loss != "disable" && g.p(15) {
+			// the operator removes the neighbour while its routes are (possibly) retained as stale
+			add(Op{Kind: "wait", N: pick(g, []int{500, 4000})})
+			add(Op{Kind: "loss", Arg: "delpeer"})
+			add(Op{Kind: "probe"})
 			add(Op{Kind: "addpeer"})
 		}
 		if loss == "disable" {
@@ -478,11 +485,14 @@ func grOp(w *simWorld, actor int, op *Op) {
 		if op.Arg == "delpeer" {
 			st.routes = map[viewKey]*grRoute{}
 			st.restart = false
+			st.deleted = true
+			w.probe("peer_deleted")
 		}
 	case "addpeer":
 		if err := w.addPeer(p.cfg); err != nil {
 			w.logf("addpeer: %v", err)
 		}
+		st.deleted = false
 		grSettle()
 	case "enable":
 		_ = w.s.EnablePeer(context.Background(), &api.EnablePeerRequest{Address: p.cfg.Addr})
@@ -588,6 +598,9 @@ func (w *simWorld) grCompare(st *grState) {
 		for _, pfx := range sortedKeys(got) {
 			if want[pfx] == nil {
 				w.violate("C12", "route-retained", fmt.Sprintf("%s %s", fam, state), fmt.Sprintf("%s (tag %x, stale=%v) is still in the Loc-RIB but must have been removed", pfx, got[pfx].Tag, got[pfx].Stale))
+				if st.deleted {
+					w.violate("C02", "routes-of-deleted-peer", fmt.Sprintf("%s %s", fam, state), fmt.Sprintf("%s (tag %x, stale=%v) from the deleted neighbour is still in the Loc-RIB", pfx, got[pfx].Tag, got[pfx].Stale))
+				}
 			}
 		}
 		if len(want) > 0 {
